@@ -612,7 +612,7 @@ META = {
              'skipped inside the loop (=> independence of insertion order and invariance under duplicating all fragments, given the mask); mate arbitration '
              'equals "higher quality wins, tie with different bases -> N, lone quality-0 call kept" on all abstract call pairs. Does NOT decide per-read '
              'base extraction (pysam) or dove-tail window arithmetic.'),
-    'technique': 'static analysis: row-wise abstract evaluation of the numpy tie mask over an enumerated vote domain, dominator checks of the vote update, exception-containment CFG check, exhaustive abstract-case evaluation of the pure arbitration helper',
+    'technique': 'static analysis: row-wise abstract evaluation of the numpy tie mask over an enumerated vote domain, dominator checks of the vote update, exception-containment CFG check, exhaustive abstract-case evaluation of the pure arbitration helper; row evaluation of the tie mask / majority step on every vote row in {0..3}^5',
     'design_ref': 'DESIGN.md section 5, C13',
 }
 
